@@ -199,11 +199,29 @@ def impl_state(s):
     return (g, s.cur_r, s.cur_c, s.cur_saved_r, s.cur_saved_c, s.scroll_row_start, s.scroll_row_end)
 
 
-def make_impl(rows, cols, state):
+def row_sharing(s):
+    """Which rows of the implementation's grid are one and the same list object?  Part of the state
+    (a restore into independent rows would silently repair such a bug): for every row the index of
+    the first row that is the same object."""
+    try:
+        ids = [id(r) for r in s.w]
+    except TypeError:
+        return ()
+    first = {}
+    out = []
+    for i, x in enumerate(ids):
+        out.append(first.setdefault(x, i))
+    return tuple(out) if any(o != i for i, o in enumerate(out)) else ()
+
+
+def make_impl(rows, cols, state, sharing=()):
     from pexpect import screen
     s = screen.screen(rows, cols)
     g, s.cur_r, s.cur_c, s.cur_saved_r, s.cur_saved_c, s.scroll_row_start, s.scroll_row_end = state
     s.w = [list(row) for row in g]
+    for i, j in enumerate(sharing):
+        if j != i:
+            s.w[i] = s.w[j]
     return s
 
 
@@ -311,24 +329,24 @@ def tasks(tier):
     return t
 
 
-def step(rows, cols, st, op):
+def step(rows, cols, st, op, sharing=()):
     """One transition on the real object and on the reference.  Returns
-    (new_state or None, violation or None, changed)."""
-    s = make_impl(rows, cols, st)
+    (new_state or None, violation or None, changed, row sharing after the step)."""
+    s = make_impl(rows, cols, st, sharing)
     ref = Ref(rows, cols, st)
     try:
         getattr(s, op[0])(*op[1:])
     except Exception as e:
-        return None, ('raised', 'operation %r raised %r' % (op, e)), False
+        return None, ('raised', 'operation %r raised %r' % (op, e)), False, ()
     ref.apply(op)
     if not shape_ok(s, rows, cols):
-        return None, ('shape', 'after %r the grid is no longer %dx%d single characters: %r' % (op, rows, cols, s.w)), True
+        return None, ('shape', 'after %r the grid is no longer %dx%d single characters: %r' % (op, rows, cols, s.w)), True, ()
     got, want = impl_state(s), ref.state()
     if got != want:
         what = 'grid' if got[0] != want[0] else 'cursor' if got[1:3] != want[1:3] else \
             'saved-cursor' if got[3:5] != want[3:5] else 'region'
-        return None, (what, 'after %r on %r: implementation %r, reference %r' % (op, st, got, want)), True
-    return got, None, got != st
+        return None, (what, 'after %r on %r: implementation %r, reference %r' % (op, st, got, want)), True, ()
+    return got, None, got != st, row_sharing(s)
 
 
 def opkey(op):
@@ -342,7 +360,7 @@ def run_task(task):
     rows, cols = task['rows'], task['cols']
     ops = ops_for(rows, cols, task['chars'])
     accs = accessors(rows, cols)
-    init = Ref(rows, cols).state()
+    init = (Ref(rows, cols).state(), ())
     parent = {init: None}
     frontier = [init]
     depth = 0
@@ -351,9 +369,12 @@ def run_task(task):
     cap = 300000
     while frontier and (task['depth'] is None or depth < task['depth']):
         nxt = []
-        for st in frontier:
+        for node in frontier:
+            st, sharing = node
             for op in ops:
-                ns, viol, changed = step(rows, cols, st, op)
+                ns, viol, changed, nsh = step(rows, cols, st, op, sharing)
+                if nsh:
+                    flags['rows_shared'] += 1
                 acc.execs += 1
                 acc.transitions += 1
                 nt = changed
@@ -377,23 +398,25 @@ def run_task(task):
                 acc.outcomes[opkey(op) + (':viol' if viol else ':ok')] += 1
                 if viol:
                     acc.violation('%s:%s' % (op[0], viol[0]), viol[1],
-                                  dict(task=task, history=path_to(parent, st) + [op]))
+                                  dict(task=task, history=path_to(parent, node) + [op]))
                     continue
-                if ns not in parent:
+                nn = (ns, nsh)
+                if nn not in parent:
                     if len(parent) >= cap:
                         if not acc.caps:
                             acc.caps.append('state cap %d hit on %dx%d' % (cap, rows, cols))
                         continue
-                    parent[ns] = (st, op)
-                    nxt.append(ns)
+                    parent[nn] = (node, op)
+                    nxt.append(nn)
         # accessors in every new state
-        for ns in nxt:
-            s = make_impl(rows, cols, ns)
+        for nn in nxt:
+            ns = nn[0]
+            s = make_impl(rows, cols, ns, nn[1])
             r = check_accessors(s, Ref(rows, cols, ns), accs)
             acc.execs += 1
             if r is not None and r[0][0] not in bad_acc:
                 acc.violation('accessor:%s' % r[0][0], '%r %s in state %r' % (r[0], r[1], ns),
-                              dict(task=task, history=path_to(parent, ns), accessor=list(r[0])))
+                              dict(task=task, history=path_to(parent, nn), accessor=list(r[0])))
         frontier = nxt
         depth += 1
     acc.states = len(parent)
